@@ -29,6 +29,16 @@ Theorem dpc_ignores_initial_alphas : forall p T al0 al0',
 Proof. exact DanielssonProofs.dpc_ignores_initial_alphas. Qed.
 Print Assumptions dpc_ignores_initial_alphas.
 
+(* nearest point, partial: EXTRA HYPOTHESIS inside = true (no barycentric coordinate of the orthogonal projection is
+   negative, i.e. nothing is clamped).  The clamped leaves are not covered by a theorem: the check classifies them
+   with an exact oracle (design/C09.md); beyond an obtuse corner the statement is false (next theorem). *)
+Theorem dpc_nearest_partial : forall p T al0 d2 al,
+  dist_point_triangle Rops p T al0 = DOk d2 al true ->
+  forall a b c, 0 <= a -> 0 <= b -> 0 <= c -> a + b + c = 1 ->
+  d2 <= vnorm2 Rops (vsub Rops p (recon Rops T (a, b, c))).
+Proof. exact DanielssonProofs.dpc_nearest_inside. Qed.
+Print Assumptions dpc_nearest_partial.
+
 (* dpc is NOT always a nearest point: rational witness (DESIGN 4 row 13), replayed on the code by the check.
    The triangle contains a point at squared distance 1 from p, dpc answers vertex A at 194/25. *)
 Theorem dpc_nearest_refuted : exists (p : @vec Q) (T : @tri Q) (q : @vec Q) d2 al ins,
